@@ -1191,7 +1191,23 @@ def r13(cx):
                         if effs:
                             late = True
                     cx.check(not late, None, construct=label, detail="refused with no allocation or write before the raise", bad_detail="the refusal comes after an allocation / a write", anchor=anchor, sub=op)
-    cx.need(n >= 16, f"only {n} shape-refusal cases")
+    # static SHAPE, dynamically sized ITEMS: the planner must look at the value's shape as well (it takes the shape
+    # from the class: a longer list would silently lose its tail)
+    for vshape, what in (([STATIC_DIMS[0] + 1], "one item too many"), ([STATIC_DIMS[0] - 1], "one item too few")):
+        n += 1
+
+        def thunk_dyn():
+            item = W.desc("it", None)
+            cls = lab.array("ArrDynItems", [STATIC_DIMS[0]], (0,), item)
+            val = [Opaque(f"v{k}") for k in range(vshape[0])]
+            I.call(cls, [val], {"_buffer": W.buffer})
+            return 0
+
+        res = I.explore(thunk_dyn, max_paths=16)
+        accepted = [r for r in res if r["exc"] is None]
+        cx.check(not accepted, None, construct=f"array[shape=[{STATIC_DIMS[0]}]] of dynamically sized items constructed from a list of {vshape[0]} values ({what})", detail="refused",
+                 bad_detail="the value is accepted: the planner takes the shape from the class and never compares it with the value's (extra items are dropped silently, missing ones read past the list)", anchor="array::Array._inspect_args", sub="construct")
+    cx.need(n >= 18, f"only {n} shape-refusal cases")
 
 
 # ------------------------------------------------------------------------------------------ R14 reference writers/readers
@@ -1544,9 +1560,18 @@ def l6(cx):
 
     res = _run(lab, thunk2)
     ok = len(res) == 1 and res[0]["exc"] is None
+    why = "evaluation fails"
     if ok:
-        ok = I.getattr(out["info"], "size") == 18 and out["mem"].get(repr(OFF)) == 18 and not [e for e in out["eff"] if e.kind in ("update_from_buffer", "update_from_xbuffer")]
-    cx.check(ok, None, construct="String(10): size word 18, no data written (reads back as the empty string from zeroed storage)", detail="capacity form reserves capacity+8 bytes", bad_detail="capacity form does not plan capacity+8 bytes / writes data", anchor="string::MetaString._inspect_args")
+        ups = [e for e in out["eff"] if e.kind == "update_from_buffer"]
+        ok = I.getattr(out["info"], "size") == 18 and out["mem"].get(repr(OFF)) == 18
+        why = "capacity form does not plan capacity+8 bytes"
+        if ok:
+            # the string is EMPTY whatever the memory held before: the data area must start with a NUL written now, and
+            # nothing but NULs may be written, inside [off+8, off+18)
+            cover = [e for e in ups if pol(e.args[0]) == OFF + Poly.const(8) and isinstance(e.args[1], (bytes, bytearray)) and len(e.args[1]) >= 1]
+            ok = bool(cover) and all(isinstance(e.args[1], (bytes, bytearray)) and set(e.args[1]) <= {0} and (pol(e.args[0]) - OFF).is_const() and 8 <= (pol(e.args[0]) - OFF).const_value() and (pol(e.args[0]) - OFF).const_value() + len(e.args[1]) <= 18 for e in ups) and not [e for e in out["eff"] if e.kind == "update_from_xbuffer"]
+            why = "the data area of a string created from a capacity is not cleared: in reused memory it shows the previous contents (no NUL terminator) instead of ''" if not cover else "the capacity form writes something else than NULs inside its data area"
+    cx.check(ok, None, construct="String(10): size word 18, data area NUL-filled (reads back as '' on any memory)", detail="capacity form reserves capacity+8 bytes and is the empty string", bad_detail=why, anchor="string::MetaString._to_buffer")
     # a String OBJECT as value (with spare capacity, e.g. made by String(24) and filled later): the writer copies the
     # whole source object, so the planner must reserve the source's size -- planned size = bytes written
     for cap, text in ((24, None), (40, None), (None, "abcdefghijklmnopq")):
